@@ -466,6 +466,22 @@ def canon_seq(t):
             ren2[t[1]] = '_v%d' % depth
             return 'for _v%d in [%s]: [%s]' % (depth, it, walk(t[3], ren2, depth + 1))
         if k == 'if':
+            # nested conditionals with a shared arm are one compound condition:
+            #   if c: (if d: X else: Y) else: Y  ==  if c and d: X else: Y      (and the three mirror images)
+            c, x, y = t[1], t[2], t[3]
+            same = lambda p, q: walk(p, dict(ren), depth) == walk(q, dict(ren), depth)      # noqa: E731
+            again = True
+            while again:
+                again = False
+                if x[0] == 'if' and same(x[3], y):
+                    c, x, again = ast.BoolOp(ast.And(), [c, x[1]]), x[2], True
+                elif x[0] == 'if' and same(x[2], y):
+                    c, x, again = ast.BoolOp(ast.And(), [c, ast.UnaryOp(ast.Not(), x[1])]), x[3], True
+                elif y[0] == 'if' and same(y[2], x):
+                    c, y, again = ast.BoolOp(ast.Or(), [c, y[1]]), y[3], True
+                elif y[0] == 'if' and same(y[3], x):
+                    c, y, again = ast.BoolOp(ast.Or(), [c, ast.UnaryOp(ast.Not(), y[1])]), y[2], True
+            t = ('if', c, x, y)
             a, b = walk(t[2], dict(ren), depth), walk(t[3], dict(ren), depth)
             if a == b:
                 return a
